@@ -111,6 +111,31 @@ CHECKS = {
         "note": "Agg backend only; window end accepted inclusive or exclusive; content judged in the configuration "
                 "the statement fixes.",
     },
+    "C02": {
+        "technique": "property-based testing: Hypothesis-generated scenarios restricted to *_pb2 enum members; "
+                     "round-trip oracle against the recipe with bit-exact reals (float.hex)",
+        "text": "Thousands of scenarios per run incl. what only protobuf carries (horn, sign virtual + first "
+                "occurrences, static-obstacle signal states left at constructor defaults, PM / STD trajectory states), "
+                "compared element by element, absent optional data must stay absent. Exploration only.",
+        "note": "Enum domains computed from the generated descriptors by member NAME.",
+    },
+    "C03": {
+        "technique": "property-based testing: Hypothesis-generated scenarios with extreme magnitudes injected; oracle = "
+                     "lxml XMLSchema validation (incl. key/keyref) + independent lexical scan of numeric text nodes + "
+                     "the library reader accepting the file",
+        "text": "Thousands of written files per run with ~20 % of the numeric fields replaced by magnitudes from 1e-7 to "
+                "1e5 at every precision 1..12, every optional element present/absent. Exploration only.",
+        "note": "Trusts lxml's validator and the shipped XSD.",
+    },
+    "C10": {
+        "technique": "property-based testing: generated well-formed networks + histories of removals / cut-outs "
+                     "interpreted in lock-step with a relation-graph model; invariants after every step",
+        "text": "2400 histories per quick run over scenario-level and network-level removals (single / list forms, "
+                "with and without referenced elements), cut-outs by rectangle / circle / polygon and by lanelet types, "
+                "create_from_lanelet_list; no-dangling, relations == original & remaining, content unchanged, original "
+                "untouched. Circle cut-outs are attributed to the recorded half-radius finding. Exploration only.",
+        "note": "first_occurrence and left_of are not among the listed reference kinds (lenient).",
+    },
 }
 
 NOT_APPLICABLE = [{"property_id": p, "reason": "check not built yet (work in progress; will be claimed once its "
